@@ -5,7 +5,7 @@ Specification: spec/FrontEnd.tla
     the action properties Progress / Variant and the liveness property Terminates on every token string up
     to a bound, and shows that the deviation PREFIX_ARGS_NO_PROGRESS (finding F11) breaks Progress.
   * Mode "enum":   every token-class string up to length 4 (quick) / 5 (thorough) over 14 classes, placed by
-    this module in the 6 contexts the spec lists (tables Conc / Contexts are emitted by the spec).
+    this module in the 7 contexts the spec lists (tables Conc / Contexts are emitted by the spec).
   * Mode "derive": derivations of the core-language grammar and their single/double mutations (-simulate).
 Replay: probes/fe_probe.c runs tokenize -> parse_program -> process_imports -> type_check in process on the
 ASan+UBSan build, one verdict per input; hangs are detected by the no-progress fuel of hook H6 (and by
@@ -74,8 +74,13 @@ def concretise_enum(records):
         for cname, tmpl in contexts.items():
             pre, post = tmpl.split("@")
             text = pre + body if cut else pre + body + post
-            out.append((text.encode(), 0, dict(fam="enum", ctx=cname, cls=cls)))
+            out.append((text.encode(), 0, ("enum", cname, cls)))       # meta as a tuple: millions of these
     return out
+
+
+def meta(it):
+    m = it[2]
+    return m if isinstance(m, dict) else dict(fam=m[0], ctx=m[1], cls=m[2])
 
 
 BYTE_TOKENS = {"<0xFF>": b"\xff", "<0xC3>": b"\xc3", "<0x01>": b"\x01", "<NUL>": b"\x00", "<0xE2><0x82>": b"\xe2\x82"}
@@ -414,12 +419,12 @@ def run(ctx):
             if f and bad:
                 known_counts[f["id"]] = known_counts.get(f["id"], 0) + len(idxs)
                 ctx.known(f["id"], "%d inputs make the parser loop without progress in loop '%s' (e.g. %r); real binary: %s" % (
-                    len(idxs), loop, items[idxs[0]][2], conf[0]))
+                    len(idxs), loop, meta(items[idxs[0]]), conf[0]))
             elif bad:
                 for i, k in zip(sample, conf):
                     if k in ("timeout", "signal"):
                         violation("the parser does not terminate (no progress in loop '%s'; real nano_virt: %s)" % (loop, k),
-                                  items[i][0], items[i][2])
+                                  items[i][0], meta(items[i]))
             else:
                 log("C09: %d in-process hang verdicts in '%s' not confirmed by the real binary (%s): not reported" % (len(idxs), loop, conf[:3]))
         elif v in ("C", "S"):
@@ -430,36 +435,36 @@ def run(ctx):
                     # if the uninstrumented binary dies on the same input
                     c2 = real.run(items[i][0], sanitize=False, limit_s=60)
                     if c2["kind"] != "signal":
-                        log("C09: stack overflow under ASan only (%s; plain build: %s): not reported" % (items[i][2], c2["kind"]))
+                        log("C09: stack overflow under ASan only (%s; plain build: %s): not reported" % (meta(items[i]), c2["kind"]))
                         continue
                     site = san_site(c["err"], asan_tree)
-                    f = match_finding("CRASH", meta=items[i][2])
+                    f = match_finding("CRASH", meta=meta(items[i]))
                     if f:
                         known_counts[f["id"]] = known_counts.get(f["id"], 0) + 1
-                        ctx.known(f["id"], "nano_virt dies from signal %s on %r (recursion through %s)" % (-c2["rc"], items[i][2], "/".join(site[1][:2])))
+                        ctx.known(f["id"], "nano_virt dies from signal %s on %r (recursion through %s)" % (-c2["rc"], meta(items[i]), "/".join(site[1][:2])))
                     else:
                         violation("the front end overflows the C stack (signal %s; recursion through %s)" % (-c2["rc"], "/".join(site[1])),
-                                  items[i][0], items[i][2])
+                                  items[i][0], meta(items[i]))
                     continue
                 if c["kind"] in ("sanitizer", "signal"):
                     site = san_site(c["err"], asan_tree)
-                    f = match_finding("SANITIZER" if c["kind"] == "sanitizer" else "CRASH", site=site, meta=items[i][2])
+                    f = match_finding("SANITIZER" if c["kind"] == "sanitizer" else "CRASH", site=site, meta=meta(items[i]))
                     if f:
                         known_counts[f["id"]] = known_counts.get(f["id"], 0) + 1
-                        ctx.known(f["id"], "%s %s in %s on %r" % (c["kind"], site[0], "/".join(site[1]), items[i][2]))
+                        ctx.known(f["id"], "%s %s in %s on %r" % (c["kind"], site[0], "/".join(site[1]), meta(items[i])))
                     else:
                         violation("the front end %s (%s in %s at `%s`, phase %s)" % (
                             "trips a sanitizer" if c["kind"] == "sanitizer" else "dies from a signal", site[0], "/".join(site[1]), site[2], phase),
-                            items[i][0], items[i][2], extra=c["err"])
+                            items[i][0], meta(items[i]), extra=c["err"])
                 elif c["kind"] == "timeout":
-                    violation("the front end does not finish within 60 s", items[i][0], items[i][2])
+                    violation("the front end does not finish within 60 s", items[i][0], meta(items[i]))
                 else:
                     log("C09: in-process %s (%s) not reproduced by nano_virt (%s): not reported" % (v, det[:80], c["kind"]))
         elif v == "n":
             for i in idxs[:25]:
                 c = real.run(items[i][0], sanitize=False)
                 if c["kind"] == "rejected-silently":
-                    violation("the input is rejected (exit %s) without any diagnostic (phase %s)" % (c["rc"], phase), items[i][0], items[i][2])
+                    violation("the input is rejected (exit %s) without any diagnostic (phase %s)" % (c["rc"], phase), items[i][0], meta(items[i]))
                 else:
                     log("C09: silent rejection in process not reproduced by nano_virt (%s)" % c["kind"])
         elif v == "x":
@@ -467,9 +472,9 @@ def run(ctx):
                 c = real.run(items[i][0], sanitize=False)
                 if c["kind"] != "accepted":
                     violation("a valid derivation of the grammar model is not accepted (%s, phase %s): %s" % (
-                        c["kind"], phase, c["err"][-200:]), items[i][0], items[i][2])
+                        c["kind"], phase, c["err"][-200:]), items[i][0], meta(items[i]))
         if v not in ("a", "r") and len(samples_bad) < 6:
-            samples_bad.append(dict(verdict=VERDICT_NAMES.get(v, v), phase=phase, detail=det[:120], n=len(idxs), cls=items[idxs[0]][2]))
+            samples_bad.append(dict(verdict=VERDICT_NAMES.get(v, v), phase=phase, detail=det[:120], n=len(idxs), cls=meta(items[idxs[0]])))
 
     # every known finding's witness is re-run through the real binary first-hand (stale entries are logged)
     for f in findings:
@@ -482,10 +487,10 @@ def run(ctx):
     # ---- trace validation (hook H6 -> FrontEndTrace.tla)
     trace_cov = dict(events=0, validated_inputs=0)
     if hooked:
-        sample = [it for it in items if it[2]["fam"] in ("derive", "seed", "witness")]
-        enum_s = [it for it in items if it[2]["fam"] == "enum"]
+        sample = [it for it in items if meta(it)["fam"] in ("derive", "seed", "witness")]
+        enum_s = [it for it in items if not isinstance(it[2], dict)]
         sample += rnd.sample(enum_s, min(len(enum_s), 1500 if tier == "quick" else 10000))
-        sample += [it for it in items if it[2]["fam"] == "nest" and it[2]["n"] <= 1001][:40]
+        sample += [it for it in items if isinstance(it[2], dict) and it[2]["fam"] == "nest" and it[2]["n"] <= 1001][:40]
         budget = 120000 if tier == "quick" else 900000
         tfile = os.path.join(ctx.dir("trace"), "h6.ndjson")
         run_probe(ctx, probe, sample, "trace", trace=tfile, fuel="40")
@@ -526,16 +531,17 @@ def run(ctx):
 
     fam_counts = {}
     for it in items:
-        fam_counts[it[2]["fam"]] = fam_counts.get(it[2]["fam"], 0) + 1
+        fam = it[2]["fam"] if isinstance(it[2], dict) else it[2][0]
+        fam_counts[fam] = fam_counts.get(fam, 0) + 1
     cov = dict(
         evaluations=len(items),
         distinct_nontrivial=len(items) - summ.get("accepted", 0),
-        rule="inputs: every token-class string up to length %s over 14 classes in 6 contexts (TLC, FrontEnd Mode enum), "
+        rule="inputs: every token-class string up to length %s over 14 classes in 7 contexts (TLC, FrontEnd Mode enum), "
              "derivations of the grammar model and their 1-2 mutations (TLC -simulate, seed %d), every truncation and random bad-byte "
              "insertions of %d seed files, nesting families at 999/1000/1001/5000; distinct = distinct byte strings; "
              "non-trivial = not simply accepted (the front end had to diagnose, recover or give up)" % (
                  "4" if tier == "quick" else "5", ctx.seed, len(glob.glob(os.path.join(CORPUS, "*.nano")))),
-        samples=[dict(text=items[i][0].decode(errors="replace")[-160:], cls=items[i][2]) for i in
+        samples=[dict(text=items[i][0].decode(errors="replace")[-160:], cls=meta(items[i])) for i in
                  rnd.sample(range(len(items)), 6)] + samples_bad,
         families=fam_counts, verdicts={VERDICT_NAMES.get(k, k): v for k, v in summ.items() if k in ()},
         probe_summary=summ, hang_groups=hang_groups, hangs_confirmed_by_real_binary=confirmed,
